@@ -30,7 +30,9 @@ void rt_op_begin(TaskCtx *t, int op, const std::vector<FaultSpec> &faults) {
 void rt_op_end(TaskCtx *t) { rt_event(t, "op_end", (uint64_t)t->cur_op, (uint64_t)t->growth_count); t->faults.clear(); }
 
 static bool is_growth_site(const char *func) {
-    return func && func[0] && strchr("sdcz", func[0]) && strcmp(func + 1, "expand") == 0;
+    // [sdcz]expand: every request for one of the four growable factor arrays; [sdcz]LUWorkInit: its direct request for the numerical
+    // work array under library allocation - the one other allocation whose failure the library reports as info > n instead of aborting
+    return func && func[0] && strchr("sdcz", func[0]) && (strcmp(func + 1, "expand") == 0 || strcmp(func + 1, "LUWorkInit") == 0);
 }
 
 static void fill_garbage(TaskCtx *t, void *p, size_t n) {
